@@ -88,6 +88,41 @@ def rule_reset(ctx, rid="reset", only=None):
                 "cpd.pass_count/set-per-file-before-it-is-spent", db.loc(u, uses[0] if uses else u.l0),
                 "the pass budget cpd.pass_count is not (only) set in uncrustify_file() in front of the loop that decrements it (other writers: %s): "
                 "later files of an invocation get what the earlier ones left" % outside)
+    if only is None:
+        # checked precondition of the reviewed exceptions for `eol` and `file_num` (state of the -p / --dump-steps output): only
+        # one file of an invocation can be processed with these outputs - every call of do_source_file() in a loop passes nullptr
+        n_loop = n_one = 0
+        for f2, c in db.callers_of("do_source_file"):
+            a = c.get("a", ())
+            if len(a) < 4:
+                continue
+            in_loop = any(f2.nblock[c["i"]] in body for h, body, _ in f2.loops())
+            both_null = expr_str(f2, a[2]) in ("nullptr", "NULL") and expr_str(f2, a[3]) in ("nullptr", "NULL")
+            if in_loop:
+                n_loop += 1
+                r.check(both_null, "do_source_file<-%s/no-parsed-or-dump-output-in-a-batch" % f2.qn, db.loc(f2, c),
+                        "a batch of files is processed with -p / --dump-steps output (%s, %s): the scratch state of these outputs is carried from file to file"
+                        % (expr_str(f2, a[2]), expr_str(f2, a[3])))
+            else:
+                n_one += 1
+        r.check(n_loop >= 2 and n_one <= 1, "do_source_file/call-sites", "src/uncrustify.cpp:1", "expected two batch call sites and one single-file call site of do_source_file, found %d and %d" % (n_loop, n_one))
+    if only is None:
+        # checked precondition of the exception for cpd.output_tab_as_space: reset at the top of every iteration of
+        # output_text()'s chunk loop, in a block that dominates every call made in that iteration
+        o = db.fn("output_text", file="src/output.cpp")
+        rs = [n for n in o.all_nodes() if n["k"] == "asg" and expr_str(o, n["i"]) == "cpd.output_tab_as_space = false"]
+        okp = False
+        for n in rs:
+            loops = [(h, body) for h, body, _ in o.loops() if o.nblock[n["i"]] in body]
+            if not loops:
+                continue
+            h, body = max(loops, key=lambda x: len(x[1]))
+            later = [b for b in body if b != h and any(x["k"] == "call" and x.get("c") in ("add_text", "add_char", "output_comment_c", "output_comment_cpp", "output_comment_multi",
+                                                                                                "output_comment_multi_simple") for x in o.blocks[b]["n"])]
+            if later and all(o.dominates_block(o.nblock[n["i"]], b) for b in later):
+                okp = True
+        r.check(okp, "cpd.output_tab_as_space/reset-at-the-top-of-every-iteration", db.loc(o, rs[0] if rs else o.l0),
+                "cpd.output_tab_as_space is not reset in a block of output_text()'s chunk loop that dominates every writer call of the iteration")
     r.floor(40 if only is None else len(only))
 
 
